@@ -10,5 +10,6 @@ CONSTANTS
     CreateUnderLock = FALSE
     MayFail = FALSE
     MayForget = FALSE
+    MayPanic = FALSE
 INVARIANTS TypeOK MutexOK OwnerOK Exclusive IdleDisjoint Conservation DataIntact
 PROPERTIES CreatedOnlyWhenIdleEmpty
